@@ -79,6 +79,21 @@ CHECKS["C17"] = dict(
    text="34 discovered Array.prototype methods x small receivers x an adversarial index/element grid x a callback pool (identity, predicates, logger, thrower, receiver-mutating, non-boolean) are compared on return value, result identity (fresh vs receiver), receiver contents afterwards, callback call sequence (value, index, array, this) and error class; index/length assignment follows the documented stricter-mode rules; sort is judged by a validity predicate (permutation, undefined last, ordered for consistent comparators, stable). Stateful histories mutate aliased arrays step by step against the list model. Nine typed-array kinds x boundary stored values x constructor/subarray/set forms and random write/read sequences through three views over one ArrayBuffer against a little-endian byte model.",
    note="Trusts oracles/arrref.py and typedref.py (0 disagreements with node on 191 000 cells at development time; one V8 deviation in fill() excluded).",
    ref="4/C17")
+CHECKS["C05"] = dict(
+   technique="exhaustive control-flow/closure skeleton enumeration + seeded random programs, differential against a tree-walking reference interpreter of the program IR; static stack-balance verifier over the compiled bytecode",
+   text="15 225 single-level and 5 187 two-level skeletons (loop kind x exit kind x enclosing construct x expression context x pending operands), 1 120 switch layouts, 312+88 closure-capture programs, scoping/completion-value programs and seeded random programs with bounded loops, recursion, hoisting, shadowing and closures are printed from one IR, run in the engine (ordered host log, completion value, uncaught error) and in an independent strict-mode reference interpreter; every difference is a violation, shrunk over the IR. A fail-soft abstract interpretation of the compiled bytecode checks operand-stack balance at every join.",
+   note="Trusts oracles/refjs.py (0 disagreements with node --use_strict on 30 319 generated programs at development time) under the documented restrictions (for-in own keys, strict array writes). Operators are kept inside a safe core (C06 judges operators).",
+   ref="4/C05")
+CHECKS["C12"] = dict(
+   technique="exhaustive short and seeded random long operation histories over several contexts, model-checked against one dictionary per context after every step",
+   text="All histories of length 3 (quick: seed-rotated sixth; thorough: all, plus 20 000 of length 4) over a 15-operation alphabet x 2 contexts, and random 8-40 step histories over 2-3 contexts with different limits: definitions, redeclarations, function definitions, eval/new Function definitions, Python set, in-place mutation, built-in mutations, and six kinds of failing eval (syntax error after valid statements, throw after effects, endless loop under a time limit, unbounded recursion under a memory limit, error inside a callback/getter, bad regex). After every step, on every context: every modelled global through get and eval, never-defined names undefined, built-in mutations visible only where made, a 12-probe battery answers as on a pristine context.",
+   note="Time-limited contexts use the real clock (T = 40 ms); the model of an interrupted counter loop is monotone only.",
+   ref="4/C12")
+CHECKS["C20"] = dict(
+   technique="exhaustive and random lastIndex operation histories against a RegExpBuiltinExec state-machine model; generated regex-driven string-method cases against transcriptions of Symbol.match/replace/search/split",
+   text="Histories over 18 operations (exec, test, ten lastIndex assignments incl. -1, 1.5, \"1\", NaN, undefined, read, match, replace, search, split) x 10 patterns (incl. empty-matching) x flag sets {'', g, y, gy, gi, gm} x 8 subjects: a seeded 1/20 of all length-3 histories in quick (all in thorough, plus length 4-6 samples) and random histories to length 10; after every step [result, lastIndex] must equal the model built on the validated reference matcher. 30 000 (1e6) generated method cases (pattern AST, flags, subject biased to adjacent and empty matches, replacement templates incl. every $ form, logging/throwing function replacers, split limits) compare value, replacer call log and lastIndex afterwards.",
+   note="Trusts oracles/reapi.py and reref.py (0 disagreements with node on 152 000 cases at development time).",
+   ref="4/C20")
 NA = {}
 m = {
  "version": 1,
